@@ -29,21 +29,19 @@ DRIVER = "drv_filter"
 THEOREMS = [
     "C09.reverse_order",
     "C09.reverseOrderOk_iff",
-    "C09.involutive_counterexample",
     "C09.involutive_flags_counterexample",
-    "C09.involutive_deferrable_counterexample",
     "C09.involutive_partial",
     "C09.undo_leaf_partial",
     "C09.undo_all_partial",
-    "C09.undo_counterexample",
 ]
 PARTIAL = {
-    "C09.involutive_partial": "full statement C09.involutive_statement is false on the unchanged tree: reverse() does not carry "
-    "modify_name (F11), if_exists/if_not_exists/drop-column kw (F13), falsy deferrable/initially and any deferrable of "
-    "check/primary-key constraints (F14); hypothesis `clean o` excludes exactly those attributes",
-    "C09.undo_leaf_partial": "apply (reverse o) (apply o S) = S for every leaf op kind on the abstract schema semantics, "
-    "under `accurate o S` (stored _reverse / existing_* describe S) and modify_name = none; database semantics of the DDL "
-    "itself is modelled (validated by executing upgrade+downgrade on SQLite only)",
+    "C09.involutive_partial": "full statement C09.involutive_statement is false on the current tree: reverse() rebuilds ops from the "
+    "schema object, so if_exists/if_not_exists and add/drop-column kw are lost (F13, open); hypothesis `clean o` excludes those "
+    "(plus representation conditions: primary-key ops carry dialect kwargs only, create_table_comment has a comment). Renames (F11) "
+    "and explicit deferrable/initially (F14) are fixed in /repo and covered by the theorem",
+    "C09.undo_leaf_partial": "apply (reverse o) (apply o S) = S for every leaf op kind incl. renames on the abstract schema semantics, "
+    "under `accurate o S` (stored _reverse / existing_* describe S); database semantics of the DDL itself is modelled (validated by "
+    "executing upgrade+downgrade on SQLite only)",
 }
 TRUSTED = [
     "canonicalisation of op objects through to_table()/to_index()/to_constraint()/to_column() (harness/reverse_ops.py:op_json) "
@@ -55,7 +53,7 @@ TRUSTED = [
 ]
 RULE = (
     "A: generated leaf ops of every reversible class (from_* and direct constructors, with/without stored _reverse, 12% carrying an "
-    "attribute reverse() is known to lose) and op trees with nested ModifyTableOps; B: real autogenerate output on SQLite for "
+    "attribute reverse() loses or used to lose (rename, IF [NOT] EXISTS, drop-column kw, deferrable=False)) and op trees with nested ModifyTableOps; B: real autogenerate output on SQLite for "
     "generated schema pairs, executed upgrade+downgrade in batch mode. Non-trivial: a reversible op / a non-empty upgrade; distinct "
     "by canonical op"
 )
@@ -64,15 +62,14 @@ ASSUMPTIONS = [
     "existing_<attr> (autogenerate always sets them); without it reverse() silently yields an op that changes nothing",
     "a DropColumnOp/DropConstraintOp without stored _reverse is not reversible (reverse() raises ValueError)",
     "AlterColumnOp.kw holds no existing_*/modify_* keys",
+    "CreatePrimaryKeyOp carries dialect kwargs only: deferrable/initially smuggled through its **kw are not read back by "
+    "CreatePrimaryKeyOp.from_constraint (create_primary_key has no such parameter; not generated, not judged)",
 ]
 
 FINDING_OF = {
-    "modify_name": "C09-F11",
     "if_exists": "C09-F13",
     "if_not_exists": "C09-F13",
     "column_kw": "C09-F13",
-    "falsy_deferrable": "C09-F14",
-    "check_deferrable": "C09-F14",
 }
 
 
